@@ -269,6 +269,44 @@ def _const_bool(n):
     return None
 
 
+def _null_pointer(e, body, depth=0):
+    """True: the returned smart pointer is empty; False: it holds a freshly created object; None: unknown"""
+    e = skip_copies(e)
+    while isinstance(e, dict) and e.get("k") in ("cast",):
+        e = skip_copies(e.get("e"))
+    if not isinstance(e, dict):
+        return None
+    if e.get("k") == "nullptr" or (e.get("k") == "int" and e.get("v") == 0 and "ptr" in (e.get("type") or "")):
+        return True
+    if e.get("k") == "construct" and ("Pointer" in (e.get("class") or "") or "_ptr" in (e.get("class") or "")):
+        args = [a for a in e.get("args", []) if a.get("k") != "defaultarg"]
+        if not args:
+            return True
+        if len(args) == 1:
+            return _null_pointer(args[0], body, depth + 1)
+        return None
+    if e.get("k") == "initlist" and not e.get("elems") and not e.get("args"):
+        return True
+    if e.get("k") == "call" and strip_tmpl(e.get("callee") or "").split("::")[-1] in ("create", "make_shared", "make_unique"):
+        return False
+    if e.get("k") == "new":
+        return False
+    if e.get("k") == "ref" and e.get("dk") == "local" and depth < 3:
+        inits, writes = [], 0
+        for x in walk(body):
+            if x.get("k") == "decl":
+                for v in x.get("vars", []):
+                    if v.get("decl") == e.get("decl") and isinstance(v.get("init"), dict):
+                        inits.append(v["init"])
+            elif x.get("k") == "call" and x.get("op") == "=" and x.get("args") and skip_copies(x["args"][0]).get("decl") == e.get("decl") and skip_copies(x["args"][0]).get("k") == "ref":
+                writes += 1
+            elif x.get("k") == "call" and x.get("ck") == "member" and (x.get("callee") or "").split("::")[-1] in ("reset", "clear", "swap") and isinstance(x.get("obj"), dict) and skip_copies(x["obj"]).get("decl") == e.get("decl"):
+                writes += 1
+        if len(inits) == 1 and not writes:
+            return _null_pointer(inits[0], body, depth + 1)
+    return None
+
+
 def _splice_cfg(cfg, call, ccfg, off, ids, d=None, cbody=None):
     """insert the callee's CFG in front of the element that evaluates `call`"""
     blocks = cfg["blocks"]
@@ -338,6 +376,51 @@ def _splice_cfg(cfg, call, ccfg, off, ids, d=None, cbody=None):
                     cb["threaded"] = True
                     cb["threaded_cond"] = call["id"]
                     cb["threaded_val"] = bool(rv)
+    # the same for a smart pointer: `auto r = helper(...); if (r.isNull()) ...` / `if (!r)` where a return path of the helper yields an empty
+    # pointer (`return {};`, `return nullptr;`) and the other a freshly created object (`T::create()`, make_shared, new)
+    if d is not None and cbody is not None and post.get("cond") is not None and len(post.get("succ", [])) == 2 and not any(cb.get("threaded") for cb in cblocks):
+        byid = {x["id"]: x for x in walk(d["body"])}
+        cond = byid.get(post["cond"])
+        inv = False
+        c0 = skip_copies(cond) if cond else None
+        while isinstance(c0, dict) and c0.get("k") == "unop" and c0.get("op") == "!":
+            inv = not inv
+            c0 = skip_copies(c0.get("e"))
+        holder, null_test = None, None
+        if isinstance(c0, dict) and c0.get("k") == "call" and c0.get("ck") == "member" and (c0.get("callee") or "").split("::")[-1] in ("isNull",) and "Pointer" in (c0.get("callee") or ""):
+            holder, null_test = skip_copies(c0.get("obj")), True
+        elif isinstance(c0, dict) and c0.get("k") == "call" and (c0.get("callee") or "").split("::")[-1] in ("operator bool", "operator RestrictedBool", "operator!") and "ointer" in (c0.get("callee") or "") + (c0.get("cls") or ""):
+            holder = skip_copies(c0.get("obj") if c0.get("ck") == "member" else (c0.get("args") or [None])[0])
+            null_test = (c0.get("callee") or "").endswith("operator!")
+        decl_stmt = None
+        if isinstance(holder, dict) and holder.get("k") == "ref" and holder.get("dk") == "local":
+            for x in byid.values():
+                if x.get("k") == "decl":
+                    for v in x.get("vars", []):
+                        if v.get("decl") == holder.get("decl") and isinstance(v.get("init"), dict) and skip_copies(v["init"]).get("id") == call["id"]:
+                            decl_stmt = x
+        if decl_stmt is not None:
+            benign = {x["id"] for x in walk(decl_stmt)} | {x["id"] for x in walk(cond)} | {call["id"]}
+            only = all(e.get("n") in benign for e in post["els"] if e.get("k") == "s")
+            rnodes = {x["id"]: x for x in walk(cbody) if x.get("k") == "inl_return"}
+            if only:
+                for cb in cblocks:
+                    if post_id not in cb.get("succ", []):
+                        continue
+                    isnull = None
+                    for e in cb["els"]:
+                        rn = rnodes.get(e.get("n"))
+                        if rn is not None and isinstance(rn.get("e"), dict):
+                            isnull = _null_pointer(rn["e"], cbody)
+                    if isnull is None:
+                        continue
+                    val = isnull if null_test else (not isnull)
+                    if inv:
+                        val = not val
+                    tgt = post["succ"][0] if val else post["succ"][1]
+                    if tgt is not None:
+                        cb["succ"] = [tgt if s_ == post_id else s_ for s_ in cb["succ"]]
+                        cb["threaded"] = True
     # the callee's own exit block is dropped (nothing points to it any more)
     cblocks = [cb for cb in cblocks if cb["id"] != cmap[cexit]]
     b["succ"] = [cmap[centry]] if centry != cexit else [post_id]
